@@ -6,10 +6,12 @@ import (
 	"compress/gzip"
 	"encoding/binary"
 	"fmt"
+	"hash/crc32"
 	"image"
 	"image/jpeg"
 	"io"
 	"os"
+	"strings"
 
 	"github.com/golang/snappy"
 	lz4 "github.com/janelia-flyem/go/golz4-updated"
@@ -30,6 +32,16 @@ type jcase struct {
 	U     bool   `json:"u"`
 	Pos   int    `json:"pos,omitempty"`
 	B     byte   `json:"b,omitempty"`
+	Mask  []byte `json:"mask,omitempty"`
+	Alts  []jalt `json:"alts,omitempty"`
+}
+
+// one burst alteration: Mask is xor-ed into the value starting at Pos; Ctl marks the controls (the
+// 33-bit generator polynomial, which CRC-32 cannot see) that are only run without decompression
+type jalt struct {
+	Pos  int    `json:"pos"`
+	Mask []byte `json:"mask"`
+	Ctl  bool   `json:"ctl,omitempty"`
 }
 
 // library calls, made by the harness itself: the oracles handed to the model
@@ -293,6 +305,15 @@ func main() {
 			kvOpen()
 			addKV(run, int(c.Comp), c.Cks, c.Data)
 			dv.Close()
+		case "burst":
+			addBurst(run, c.S, c.Alts)
+		case "crc":
+			addCrc(run, c.Data, c.Alts)
+		case "big-burst":
+			var n int
+			fmt.Sscan(string(c.Data), &n)
+			_, sbytes := goSerialize(bigData(n), c.Comp, c.Level, c.Cks)
+			addBigBurst(run, sbytes, n, c.Comp, c.Level, c.Cks, c.Pos, c.Mask)
 		case "serialize":
 			addSer(c.Data, c.Comp, c.Level, c.Cks)
 		case "corrupt":
@@ -413,6 +434,24 @@ func main() {
 					}
 					addBigCorrupt(run, sbytes, n, comp, level, cks, pos, byte(1)<<uint(rng.Intn(8)))
 				}
+				// bursts (2..4 adjacent bytes, 32 bits at any bit offset) in the payload of a CRC-protected value
+				if cks == 1 && comp != 2 {
+					nb := 12
+					if o.Thorough() {
+						nb = 120
+					}
+					for bi := 0; bi < nb; bi++ {
+						mask, _ := burstMask(rng, false)
+						pos := 5 + rng.Intn(len(sbytes)-5-len(mask))
+						switch bi % 6 {
+						case 0:
+							pos = 5
+						case 1:
+							pos = len(sbytes) - len(mask)
+						}
+						addBigBurst(run, sbytes, n, comp, level, cks, pos, mask)
+					}
+				}
 			}
 		}
 	}
@@ -465,6 +504,89 @@ func main() {
 				goSerialize(bigData(n + 1)[:n], comp, -1, 0) // text-like (odd size), cut to n
 				addBigSer(run, n+d+(n+d)%2, comp, -1, uint8(d%2))
 			}
+		}
+	}
+
+	// round 4: burst alterations of real CRC-protected serialized values (C15_burst_corruption_detected,
+	// C15_burst32_corruption_detected) and hash/crc32 against the model on random strings
+	{
+		nBurstEnv, nAlt, nCrc := 14, 22, 30
+		if o.Thorough() {
+			nBurstEnv, nAlt, nCrc = 140, 40, 400
+		}
+		for ei := 0; ei < nBurstEnv; ei++ {
+			var data []byte
+			switch ei % 7 {
+			case 0:
+				data = rng.Bytes(1 + rng.Intn(4)) // payload not longer than the burst
+			case 1:
+				data = rng.Bytes(5)
+			case 2:
+				data = bytes.Repeat([]byte{byte(rng.Intn(256))}, 20+rng.Intn(200))
+			case 3:
+				data = make([]byte, 8+rng.Intn(40)) // zeros: the CRC register sees only the burst
+			default:
+				data = rng.Bytes(6 + rng.Intn(90))
+			}
+			comp := uint8(rng.Pick(0, 0, 1, 4))
+			scls, s0 := goSerialize(data, comp, -1, 1)
+			if scls != "ok" {
+				continue
+			}
+			var alts []jalt
+			for ai := 0; ai < nAlt; ai++ {
+				mask, ctl := burstMask(rng, ai%11 == 10)
+				if len(s0) < 5+len(mask) {
+					mask, ctl = mask[:1+rng.Intn(len(s0)-5)], false
+					if allZero(mask) {
+						mask[0] = 0x80
+					}
+				}
+				pos := 5 + rng.Intn(len(s0)-5-len(mask)+1)
+				switch ai % 5 {
+				case 0:
+					pos = 5 // first payload byte
+				case 1:
+					pos = len(s0) - len(mask) // last payload bytes
+				case 2:
+					if !ctl && ai%10 == 2 {
+						pos = 5 - 1 - rng.Intn(len(mask)) // straddles the checksum field / format byte (no claim; totality only)
+						if pos < 0 {
+							pos = 0
+						}
+					}
+				}
+				alts = append(alts, jalt{Pos: pos, Mask: mask, Ctl: ctl})
+			}
+			addBurst(run, s0, alts)
+		}
+		// corpus: C15_stored_value_burst_refuted - a 4-byte burst over three checksum bytes and the first
+		// payload byte turns one valid value into another; Go and the model must both return data
+		if scls, s0 := goSerialize([]byte{1, 2, 3, 4, 5}, 0, -1, 1); scls == "ok" {
+			addBurst(run, s0, []jalt{{Pos: 2, Mask: []byte{251, 38, 99, 151}}, {Pos: 5, Mask: []byte{251, 38, 99, 151}}})
+		}
+		for i := 0; i < nCrc; i++ {
+			var data []byte
+			switch i % 5 {
+			case 0:
+				data = rng.Bytes(rng.Intn(6))
+			case 1:
+				data = make([]byte, rng.Intn(64))
+			default:
+				data = rng.Bytes(rng.Intn(300))
+			}
+			var alts []jalt
+			for ai := 0; ai < 6 && len(data) > 0; ai++ {
+				mask, ctl := burstMask(rng, ai == 5)
+				if len(mask) > len(data) {
+					mask, ctl = mask[:len(data)], false
+					if allZero(mask) {
+						mask[0] = 1
+					}
+				}
+				alts = append(alts, jalt{Pos: rng.Intn(len(data) - len(mask) + 1), Mask: mask, Ctl: ctl})
+			}
+			addCrc(run, data, alts)
 		}
 	}
 
@@ -554,6 +676,108 @@ func addBigCorrupt(run *lib.Run, sbytes []byte, n int, comp uint8, level int8, c
 	term := fmt.Sprintf("CBigCorrupt %d %d %d %d %s %s", n, comp, cks, pos, lib.CoqBool(libcls != "ok"), cl)
 	run.Count("big-corrupt-result:" + gc)
 	run.Add("big-corrupt", term, jcase{Kind: "big-corrupt", Comp: comp, Level: level, Cks: cks, Pos: pos, B: mask, Data: []byte(fmt.Sprint(n))}, fmt.Sprintf("bigc/%d/%d/%d/%d/%d", n, comp, cks, pos, mask))
+}
+
+func allZero(b []byte) bool {
+	for _, x := range b {
+		if x != 0 {
+			return false
+		}
+	}
+	return true
+}
+
+// burstMask: a non-zero xor mask confined to 32 consecutive bits: 1..4 whole bytes, or 5 bytes holding a
+// 32-bit word shifted by 1..7 bits; random or adversarial (the CRC polynomial in both bit orders, its
+// table entry, all ones, isolated end bits).  With control set: the 33-bit generator polynomial itself
+// (one bit too long), which no CRC-32 can detect - the model and the Go library must agree on that too.
+func burstMask(rng *lib.Rand, control bool) ([]byte, bool) {
+	le5 := func(v uint64) []byte {
+		return []byte{byte(v), byte(v >> 8), byte(v >> 16), byte(v >> 24), byte(v >> 32)}
+	}
+	if control {
+		return le5(uint64(0x1DB710641) << uint(rng.Intn(8))), true
+	}
+	words := []uint32{0xEDB88320, 0x04C11DB7, 0xDB710641, 0x77073096, 0xFFFFFFFF, 0x80000001, 0x2083B8ED, 0xB71DC104, 0x00000001, 0x80000000}
+	w := words[rng.Intn(len(words))]
+	if rng.Chance(0.5) {
+		w = uint32(rng.U64())
+	}
+	if w == 0 {
+		w = 1
+	}
+	switch rng.Intn(3) {
+	case 0: // 32 bits at a bit offset 1..7: five bytes
+		j := uint(1 + rng.Intn(7))
+		return le5(uint64(w) << j), false
+	case 1: // 4 whole bytes
+		return le5(uint64(w))[:4], false
+	default: // 1..3 whole bytes
+		n := 1 + rng.Intn(3)
+		m := le5(uint64(w))[:n]
+		if allZero(m) {
+			m[n-1] = byte(1 + rng.Intn(255))
+		}
+		return m, false
+	}
+}
+
+func xorAt(s []byte, pos int, mask []byte) []byte {
+	out := append([]byte{}, s...)
+	for i, m := range mask {
+		if pos+i < len(out) {
+			out[pos+i] ^= m
+		}
+	}
+	return out
+}
+
+func oc(cls string) string {
+	return map[string]string{"ok": "OOk", "err": "OErr", "panic": "OPanic"}[cls]
+}
+
+func addBurst(run *lib.Run, s0 []byte, alts []jalt) {
+	var terms []string
+	for _, a := range alts {
+		mut := xorAt(s0, a.Pos, a.Mask)
+		if hostile(mut) {
+			run.Count("skipped:hostile-size")
+			continue
+		}
+		fc, _, _ := goDeserialize(mut, false)
+		tc := fc
+		if !a.Ctl {
+			tc, _, _ = goDeserialize(mut, true)
+		}
+		kind := "payload"
+		if a.Pos < 5 {
+			kind = "straddle"
+		}
+		if a.Ctl {
+			kind = "generator-control"
+		}
+		run.Count(fmt.Sprintf("burst:%s/len%d/result:%s", kind, len(a.Mask), fc))
+		terms = append(terms, fmt.Sprintf("(%d, %s, %s, %s)", a.Pos, lib.CoqBytes(a.Mask), oc(tc), oc(fc)))
+	}
+	term := fmt.Sprintf("CBurst %s [%s]", lib.CoqBytesCompact(s0), strings.Join(terms, "; "))
+	run.Add("burst", term, jcase{Kind: "burst", S: s0, Alts: alts}, fmt.Sprintf("burst/%x/%d", crcKey(s0), len(alts)))
+}
+
+func addCrc(run *lib.Run, data []byte, alts []jalt) {
+	var terms []string
+	for _, a := range alts {
+		terms = append(terms, fmt.Sprintf("(%d, %s, %d)", a.Pos, lib.CoqBytes(a.Mask), crc32.ChecksumIEEE(xorAt(data, a.Pos, a.Mask))))
+	}
+	term := fmt.Sprintf("CCrc %s %d [%s]", lib.CoqBytesCompact(data), crc32.ChecksumIEEE(data), strings.Join(terms, "; "))
+	run.Count("crc32:strings")
+	run.Add("crc", term, jcase{Kind: "crc", Data: data, Alts: alts}, fmt.Sprintf("crc/%x/%d", crcKey(data), len(data)))
+}
+
+func addBigBurst(run *lib.Run, sbytes []byte, n int, comp uint8, level int8, cks uint8, pos int, mask []byte) {
+	gc, _, _ := goDeserialize(xorAt(sbytes, pos, mask), true)
+	term := fmt.Sprintf("CBigBurst %d %d %d %d %s %s", n, comp, cks, pos, lib.CoqBytes(mask), oc(gc))
+	run.Count("big-burst-result:" + gc)
+	run.Add("big-burst", term, jcase{Kind: "big-burst", Comp: comp, Level: level, Cks: cks, Pos: pos, Mask: mask, Data: []byte(fmt.Sprint(n))}, fmt.Sprintf("bigb/%d/%d/%d/%d/%x", n, comp, cks, pos, crcKey(mask)))
 }
 
 // scanMeta: the repos as stored (metadata values written by repoT.saveToStore): format byte and detection of
